@@ -2,6 +2,7 @@ package props
 
 import (
 	"fmt"
+	"regexp"
 	"sort"
 	"strings"
 
@@ -444,7 +445,7 @@ type c12prog struct {
 
 func c12run(r *report.Run) {
 	thorough := r.Tier == "thorough"
-	r.Rule("(a) all reachable slot-array states of the robin-hood table under Set/Assign/Delete over colliding keys, Copy from every state followed by all 1-2 operation continuations on either handle; (b) for every n up to a bound and 7 key patterns: insert n, delete/re-insert every single key, delete all in three orders; (c) struct programs for every field count F and method count M with three write orders and forced field-index strides; (d) host API on the same types; non-trivial = history with >=3 operations, family with n>12, struct program with F>=2")
+	r.Rule("(a) all reachable slot-array states of the robin-hood table under Set/Assign/Delete over colliding keys, Copy from every state followed by all 1-2 operation continuations on either handle; (b) for every n up to a bound and 7 key patterns: insert n, delete/re-insert every single key, delete all in three orders; (c) struct programs for every field count F and method count M with three write orders and forced field-index strides; (d) host API on the same types; (f) all sequences of <=3 (thorough: 4) statements over 16 field statements (constants, ++, +=, a field computed from another field of the same or the other instance, swaps, byte wrap-around, stores through t.p) placed in locals, in a method and in package-level variables, against the same statements run natively on a Go struct; non-trivial = history with >=3 operations, family with n>12, struct program with F>=2")
 	r.Assume("Go map per handle is the reference for the table; expected struct output is known by construction and the quick slice is also run by the Go toolchain", "key patterns and strides are fixed families, enumerated completely")
 	keys := []int{0, 16, 32, 1, 15}
 	maxN, maxF := 64, 64
@@ -537,6 +538,14 @@ func c12run(r *report.Run) {
 		}
 	})
 	r.Set("method_table_programs", len(mjobs))
+	// (f) field-statement histories
+	depthF := 3
+	if thorough {
+		depthF = 4
+	}
+	goF, wantF := c12fieldHistories(r, depthF)
+	goProgs = append(goProgs, goF...)
+	goWant = append(goWant, wantF...)
 	gres, err := cache.Run(goProgs)
 	validated := 0
 	if err != nil {
@@ -557,6 +566,147 @@ func c12run(r *report.Run) {
 	if r.Expired() {
 		r.NotExhaustive("internal deadline reached")
 	}
+}
+
+// (f) field-statement histories -----------------------------------------------------------
+//
+// All sequences of <= depth statements over an alphabet of field statements on two instances t, u (u reachable through
+// t.p as well) of a struct with fields f, g int; h byte; p *S: constants, ++, +=, a field computed from ANOTHER field of
+// the same / the other instance plus or minus a constant, swaps, stores through t.p.  Three placements of the same
+// statements: locals of a function, the receiver and an argument of a method, package-level variables.  Reference: the
+// same statements executed natively on a Go struct (the statements are given as source text and as Go closures).
+
+type c12S struct {
+	f, g int
+	h    byte
+	p    *c12S
+}
+
+type c12fstmt struct {
+	src string
+	do  func(t, u *c12S)
+}
+
+var c12fstmts = []c12fstmt{
+	{"t.f = 5", func(t, u *c12S) { t.f = 5 }},
+	{"t.f++", func(t, u *c12S) { t.f++ }},
+	{"t.g += 2", func(t, u *c12S) { t.g += 2 }},
+	{"t.g = t.f + 3", func(t, u *c12S) { t.g = t.f + 3 }},
+	{"t.g = t.f - 1", func(t, u *c12S) { t.g = t.f - 1 }},
+	{"t.f = t.g + 1", func(t, u *c12S) { t.f = t.g + 1 }},
+	{"t.f = t.f + 1", func(t, u *c12S) { t.f = t.f + 1 }},
+	{"u.f = t.f + 1", func(t, u *c12S) { u.f = t.f + 1 }},
+	{"t.g = u.g + 7", func(t, u *c12S) { t.g = u.g + 7 }},
+	{"t.f, t.g = t.g, t.f", func(t, u *c12S) { t.f, t.g = t.g, t.f }},
+	{"t.h = t.h + 200", func(t, u *c12S) { t.h = t.h + 200 }},
+	{"t.h += 100", func(t, u *c12S) { t.h += 100 }},
+	{"t.p.g = t.f + 1", func(t, u *c12S) { t.p.g = t.f + 1 }},
+	{"t.p.f++", func(t, u *c12S) { t.p.f++ }},
+	{"t.g = t.p.f - 2", func(t, u *c12S) { t.g = t.p.f - 2 }},
+	{"u.h = t.h + 1", func(t, u *c12S) { u.h = t.h + 1 }},
+}
+
+var c12tuRe = regexp.MustCompile(`\b(t|u)\b`)
+
+// c12glob rewrites the variables t and u (whole words) to the package-level gt and gu
+func c12glob(s string) string { return c12tuRe.ReplaceAllString(s, "g$1") }
+
+func c12fieldHistories(r *report.Run, depth int) (progs []*oracle.Prog, wants []string) {
+	n := len(c12fstmts)
+	var seqs [][]int
+	var rec func(cur []int)
+	rec = func(cur []int) {
+		if len(cur) > 0 {
+			seqs = append(seqs, append([]int{}, cur...))
+		}
+		if len(cur) == depth {
+			return
+		}
+		for k := 0; k < n; k++ {
+			rec(append(cur, k))
+		}
+	}
+	rec(nil)
+	r.Set("field_statement_histories", len(seqs))
+	const per = 150
+	show := "fmt.Println(t.f, t.g, t.h, u.f, u.g, u.h, t.p == u)\n"
+	type pk struct {
+		name, src string
+		want      []string
+		seqs      [][]int
+	}
+	var pkgs []pk
+	for s0 := 0; s0 < len(seqs); s0 += per {
+		e := s0 + per
+		if e > len(seqs) {
+			e = len(seqs)
+		}
+		name := fmt.Sprintf("h%04d", s0/per)
+		var b strings.Builder
+		b.WriteString("package " + name + "\n\nimport \"fmt\"\n\ntype S struct {\n\tf int\n\tg int\n\th byte\n\tp *S\n}\n\nvar gt, gu *S\n\n")
+		var want []string
+		for i, sq := range seqs[s0:e] {
+			var body strings.Builder
+			for _, k := range sq {
+				body.WriteString("\t" + c12fstmts[k].src + "\n")
+			}
+			// placement 1: locals; 2: method receiver + argument; 3: package-level variables
+			fmt.Fprintf(&b, "func L%d() {\n\tu := &S{f: 20, g: 30, h: 40}\n\tt := &S{f: 1, g: 2, h: 250, p: u}\n%s\t%s}\n\n", i, body.String(), show)
+			fmt.Fprintf(&b, "func (t *S) M%d(u *S) {\n%s\t%s}\n\n", i, body.String(), show)
+			fmt.Fprintf(&b, "func G%d() {\n\tgu = &S{f: 20, g: 30, h: 40}\n\tgt = &S{f: 1, g: 2, h: 250, p: gu}\n%s\t%s}\n\n", i, c12glob(body.String()), c12glob(show))
+			fmt.Fprintf(&b, "func F%d() {\n\tL%d()\n\tu := &S{f: 20, g: 30, h: 40}\n\tt := &S{f: 1, g: 2, h: 250, p: u}\n\tt.M%d(u)\n\tG%d()\n}\n\n", i, i, i, i)
+			mu := &c12S{f: 20, g: 30, h: 40}
+			mt := &c12S{f: 1, g: 2, h: 250, p: mu}
+			for _, k := range sq {
+				c12fstmts[k].do(mt, mu)
+			}
+			line := fmt.Sprintln(mt.f, mt.g, mt.h, mu.f, mu.g, mu.h, mt.p == mu)
+			want = append(want, line+line+line)
+		}
+		b.WriteString("func Main() {\n")
+		for i := range seqs[s0:e] {
+			fmt.Fprintf(&b, "\tF%d()\n", i)
+		}
+		b.WriteString("}\n")
+		pkgs = append(pkgs, pk{name, b.String(), want, seqs[s0:e]})
+	}
+	par.Do(len(pkgs), func(k int) {
+		p := pkgs[k]
+		m := goat.New()
+		defer m.Close()
+		lr := m.Load(goat.FS(map[string]string{p.name + "/x.go": p.src}), p.name)
+		if lr.Failed() {
+			r.Fail(&report.Case{Kind: "fields", Key: "package " + p.name + " of field-statement histories does not load", Files: map[string]string{p.name + "/x.go": p.src}, Want: "loads", Got: lr.String()})
+			return
+		}
+		for i, sq := range p.seqs {
+			res := m.Call(fmt.Sprintf("%s.F%d", p.name, i), 0)
+			r.Eval(1)
+			got := res.Out
+			if res.Failed() {
+				got = res.String()
+			}
+			var st []string
+			for _, k := range sq {
+				st = append(st, c12fstmts[k].src)
+			}
+			key := strings.Join(st, "; ")
+			if len(sq) >= 2 {
+				r.Nontrivial("fields " + key)
+			}
+			if got != p.want[i] {
+				r.Fail(&report.Case{Kind: "fields", Key: "statements: " + key + " (printed from locals, from a method, from package-level variables)", Input: map[string]any{"seq": sq}, Want: p.want[i], Got: got})
+			}
+		}
+	})
+	// Go toolchain on the packages holding the histories of <= 2 statements (and every 8th other package)
+	for k, p := range pkgs {
+		if len(p.seqs[len(p.seqs)-1]) <= 2 || k%8 == 0 {
+			progs = append(progs, &oracle.Prog{Pkg: p.name, Files: map[string]string{"x.go": p.src}, Entry: "Main"})
+			wants = append(wants, strings.Join(p.want, ""))
+		}
+	}
+	return
 }
 
 // c12methods: a type with n methods; returns expected and observed output.
@@ -711,6 +861,11 @@ func c12host(pkg, src string, F int) string {
 }
 
 func c12rerun(c *report.Case) (bool, string) {
+	if c.Kind == "fields" {
+		rr := report.New("C12", "quick")
+		c12fieldHistories(rr, 3)
+		return rr.Violations() > 0, fmt.Sprintf("%d failing field-statement histories", rr.Violations())
+	}
 	switch c.Kind {
 	case "table":
 		var h c12hist
